@@ -65,3 +65,17 @@ Proof. exact tie_cell_char. Qed.
 Check C08_source_cell_char : forall c, g_cell_char c = Ok (ch c).
 Print Assumptions C08_source_cell_char.
 
+From Avt Require Import Proofs.SpecPrint Proofs.StepC16.
+(** clauses of other properties' statements that this property's text contains and its check evaluates on the implementation *)
+(** "every cell printed ... afterwards reports exactly that pen": the cells REP writes carry the current pen (the REP specification, evaluated as `C08.rep_pen`) *)
+Theorem C08_rep_pen : forall p p' t n t', TInv t -> execute t (Rep n) = Ok t' -> holds_C04 (mkVt p t) (Rep n) (mkVt p' t') = true.
+Proof. intros p p' t n t'. exact (C04_holds p p' t (Rep n) t'). Qed.
+Check C08_rep_pen : forall p p' t n t', TInv t -> execute t (Rep n) = Ok t' -> holds_C04 (mkVt p t) (Rep n) (mkVt p' t') = true.
+Print Assumptions C08_rep_pen.
+
+(** "every cell ... blanked afterwards": entering the alternate screen presents blanks in the current pen (evaluated as `C08.alt_entry_blank_pen`) *)
+Theorem C08_alt_entry_blank_pen : forall p p' t ms t', TInv t -> execute t (Decset ms) = Ok t' -> holds_C16 (mkVt p t) (Decset ms) (mkVt p' t') = true.
+Proof. intros p p' t ms t'. exact (C16_holds p p' t (Decset ms) t'). Qed.
+Check C08_alt_entry_blank_pen : forall p p' t ms t', TInv t -> execute t (Decset ms) = Ok t' -> holds_C16 (mkVt p t) (Decset ms) (mkVt p' t') = true.
+Print Assumptions C08_alt_entry_blank_pen.
+
